@@ -65,6 +65,14 @@ PROPS = {
         'assumptions': ["64-bit little-endian words (x86-64)"],
         'partial': 'the pure stage drives the public scan; the inclusion decision with the instruction pointer, the soft error and the records of excluded stacks are exercised by the live stage',
     },
+    'C06': {
+        'abi_module': 'AbiC06',
+        'stages': quick_thorough(
+            [{'name': 'stackinfo', 'sub': 'c06', 'n': 1000, 'timeout': 300}],
+            [{'name': 'stackinfo', 'sub': 'c06', 'n': 40000, 'timeout': 900}]),
+        'assumptions': ["page size 4096; 64-bit address space", "hypotheses of C06_region_in_mapping: the page of the stack pointer lies inside the kernel extent of a readable/writable mapping"],
+        'partial': 'the pure stage drives get_stack_info; the size-limit rule (positions >= 20, never the crash thread, 2 KiB) and byte equality with target memory are exercised by the live stage',
+    },
     'C13': {
         'abi_module': 'AbiC13',
         'stages': quick_thorough(
